@@ -530,6 +530,52 @@ def r3_splice(program, folder, rep):
     rep.floor("C20-R3", 4)
 
 
+def r3_callers_files(program, rep):
+    """The image sent and the struct definitions used are the files the
+    caller names; the bundled ones are used for an argument only when THAT
+    argument is None."""
+    import itertools
+    fn = program.get(MOD + ":boot")
+    inst = qual(fn)
+    T = Terms(fn)
+    files = [a.arg for a in fn.args.args if a.arg in ("scamp_binary",
+                                                      "sark_struct")]
+    opens = [c for c in calls_in(fn, "open") if c.args]
+    if len(files) != 2 or len(opens) != 2:
+        raise AnalysisError("boot: the two files (image, struct "
+                            "definitions) and their open() calls were not "
+                            "found in the form analysed")
+    for given in itertools.product((True, False), repeat=2):
+        H = T.under(*[(is_none(("param", f_)), not g_)
+                      for f_, g_ in zip(files, given)])
+        got = []
+        for c in opens:
+            n = H.cfg.node_containing(c)
+            got.append(plain(H.term(c.args[0], n)))
+        if any(any(st_[0] in ("mu", "phi", "opaque") for st_ in subterms(g_))
+               for g_ in got):
+            raise AnalysisError("boot: which file is opened is not a single "
+                                "value under the case split on the file "
+                                "arguments; not analysed")
+        for f_, g_ in zip(files, given):
+            if g_:
+                ok = ("param", f_) in got
+                rep.check(ok, "C20-R3", inst, "the caller's %s is the file "
+                          "read when it is given (%s)" % (f_, " / ".join(
+                              "%s %s" % (x, "given" if y else "None")
+                              for x, y in zip(files, given))),
+                          construct="file opened for %s, case %s" % (
+                              f_, given), node=fn,
+                          fail="with %s the file read for %s is not the one "
+                               "the caller named (the files opened are %s): "
+                               "the image sent / the definitions used are "
+                               "not the requested ones" % (
+                                   ", ".join("%s %s" % (x, "given" if y else
+                                                        "None")
+                                             for x, y in zip(files, given)),
+                                   f_, [show(x)[:50] for x in got]))
+
+
 def r3_returned_structs(program, rep):
     """The struct definitions boot() returns are the very objects whose "sv"
     defaults received the options and were packed into the image (decided on
@@ -837,6 +883,7 @@ def check(program, rep):
     rep.guard("C20-R3", r3_splice, program, folder, rep)
     rep.guard("C20-R3", r3_pack_fields, program, rep)
     rep.guard("C20-R3", r3_returned_structs, program, rep)
+    rep.guard("C20-R3", r3_callers_files, program, rep)
     rep.guard("C20-R4", r4_packet, program, folder, rep)
     return finish(rep, program, EXPLANATION, NOT_DECIDED,
                   trusted=["effects.py transfer functions",
